@@ -23,7 +23,8 @@ func init() {
 	}
 	fw.Register(&fw.Prop{
 		ID:       "C05",
-		Parallel: 4, // cases are judged on 4 goroutines per shard: the library functions are stateless, shared state inside them shows up as wrong verdicts
+		Builds:   []string{"default", "386"}, // the 386 build runs a quarter of the random classes on a 32-bit target
+		Parallel: 4,                          // cases are judged on 4 goroutines per shard: the library functions are stateless, shared state inside them shows up as wrong verdicts
 		Rule: "(hrp, data) pairs: every data length 0..55 x hrp length chosen so that the result has 86..93 characters (both sides of the limit; an empty hrp where that is what it takes) x hrp kind (lower-case letters, upper-case letters, digits only, any of 33..126 in one case, with '1' inside) x data pattern (zero, 0xff, random, single bit); random pairs with hrp length 1..83 and data length 0..51; " +
 			"invalid hrps: empty, mixed case, every byte 0..32 and 127..255 at the first/middle/last position, multi-byte runes (incl. U+212A, U+0130, U+0131, U+017F), invalid UTF-8, each with short data so that only the hrp decides; over-long data 52..70 bytes. " +
 			"Every Encode call: success iff the model's domain (1 <= len(hrp), chars 33..126, one case, len(hrp)+1+ceil(8n/5)+6 <= 90), string equal to the model's, empty string on error, Decode(result) == (lower(hrp), data). " +
